@@ -57,6 +57,11 @@ EXTRA_PIPES = {
         {**_f("f", ["x"], {"x": ["i"]}, ["i"], [], ["a"]), "none": True},
         _f("g", ["a", "x"], {"a": ["i"], "x": ["i"]}, ["i"], [], ["c"])]},  # g also takes x[i]: its invocations stay distinguishable
 }
+# a function WITHOUT MapSpec whose two outputs are picked by a custom output_picker from a dict, and one whose output name is a 1-tuple
+EXTRA_PIPES["picker-reducer"] = {"roots": {"x": ["i"]}, "sizes": S2, "funcs": [
+    _f("f", ["x"], {"x": ["i"]}, ["i"], [], ["y"]), {**_f("g", ["y"], None, [], [], ["a", "b"]), "picker": True}]}
+EXTRA_PIPES["one-tuple-reducer"] = {"roots": {"x": ["i"]}, "sizes": S2, "funcs": [
+    _f("f", ["x"], {"x": ["i"]}, ["i"], [], ["y"]), {**_f("g", ["y"], None, [], [], ["s"]), "one_tuple": True}]}
 EXTRA = set(EXTRA_PIPES)
 ALL_PIPES = {**PIPES, **EXTRA_PIPES}
 
